@@ -4,6 +4,8 @@ CONSTANTS
   Children = {"c", "d"}
   Vals = {"1", "2"}
   MaxHist = 7
+  SkipOnlyAtTail = FALSE
+  MaxCrash = 2
   SkipConflictOnReplay = FALSE
 INVARIANTS EmitHistory
 CHECK_DEADLOCK FALSE
